@@ -881,6 +881,9 @@ Maint(a, r, post) ==
         Chk("MODEL.repair_neighbor_pointers leaves a wrong neighbour slot or changes a cell",
             r.kind = "Ok" /\ L2e(post) /\ K(post) = K(pre) /\ ObsVerts(post) = ObsVerts(pre)
             /\ {[id |-> x.id, vs |-> x.vs, data |-> x.data] : x \in CRecs(post)} = {[id |-> x.id, vs |-> x.vs, data |-> x.data] : x \in CRecs(pre)}))
+  /\ (a.op = "clear_then_repair_neighbors" /\ Level1Q(pre) /\ Level2Q(pre) =>
+        Chk("MODEL.clear_all_neighbors + repair_neighbor_pointers does not restore the neighbour relation",
+            r.kind = "Ok" /\ ObsCells(post) = ObsCells(pre) /\ ObsVerts(post) = ObsVerts(pre)))
   /\ (a.op = "is_connected" /\ Level1Q(pre) /\ Level2Q(pre) /\ Len(pre.cells) > 0 =>
         Chk("MODEL.is_connected disagrees with facet connectivity", (r.n = 1) = DualConnected(K(pre))))
   /\ (a.op = "star_of_each_vertex" /\ Level1Q(pre) /\ Level2Q(pre) =>
